@@ -219,7 +219,10 @@ class Prop(PropBase):
             'set/blank/unset -> $HOME/.config, PYPYR_CONFIG_GLOBAL unset/empty/absolute/relative and '
             'present/missing, PYPYR_SKIP_INIT, PYPYR_CONFIG_LOCAL, PYPYR_NO_CACHE, PYPYR_ENCODING, '
             'PYPYR_CMD_ENCODING) x presence subset of the 5 locations (all 32, round-robin) x '
-            'assignment of scalars / vars keys / shortcuts keys to the files, 30% with one defect '
+            'assignment of scalars / vars keys / shortcuts keys to the files; every 5th pass the same '
+            'config path is consulted at several positions (a dir repeated in XDG_CONFIG_DIRS: A:B:A, '
+            'A:A:B, B:A:B..., and/or XDG_CONFIG_HOME equal to a common dir) with the files in between '
+            'setting the same scalar / vars key / shortcuts key to different values; 30% with one defect '
             '(falsy / truthy non-mapping, unknown keys, non-mapping vars, empty map, empty file), '
             'pyproject.toml shapes (no tool / no tool.pypyr / empty / tool not a table); each run in '
             'a child process with its own sandbox, env and cwd, 6% in a fresh process through the '
@@ -339,6 +342,12 @@ class Prop(PropBase):
                             'valid-config-rejected'))
             return out
         got = settings_of(res[1])
+        # a config path consulted at more than one position (a directory listed twice in
+        # $XDG_CONFIG_DIRS, $XDG_CONFIG_HOME equal to a common directory): precedence goes by
+        # POSITION — first-listed common dir highest among the common dirs, the user file above
+        # all of them — so what the highest position says must win over everything below it
+        seen_paths = [path for path, _ in layers]
+        repeated = len(set(seen_paths)) < len(seen_paths)
         lows = []       # settings of the files a set $PYPYR_CONFIG_GLOBAL replaces
         if glob:
             c2 = dict(case)
@@ -355,6 +364,8 @@ class Prop(PropBase):
                 fp = 'scalar-wrong-winner'
                 if glob and any(pv_get(p, s)[0] and pv.pv_equal(pv_get(p, s)[1], got.get(s)) for p in lows):
                     fp = 'global-not-replacing'
+                elif repeated:
+                    fp = 'repeated-path-wrong-winner'
                 out.append(fail('scalar-highest-wins', f'{s}: expected {want!r} (from {src}), effective value '
                                                        f'is {got.get(s)!r}', fp))
                 break
@@ -377,6 +388,8 @@ class Prop(PropBase):
                 fp = 'dict-not-union'
                 if glob and set(havem) - set(want):
                     fp = 'global-not-replacing'
+                elif repeated:
+                    fp = 'repeated-path-wrong-winner'
                 out.append(fail('dict-union', f'{prop}: expected key-wise union {want!r} (sources {srcs}), '
                                               f'effective value is {havem!r}', fp))
         return out
@@ -408,6 +421,10 @@ class Prop(PropBase):
             tags.append('common:/etc/xdg')
         if case.get('fresh'):
             tags.append('fresh-process-singleton')
+        if not env_true(env.get('PYPYR_SKIP_INIT')) and not env.get('PYPYR_CONFIG_GLOBAL'):
+            paths = [p for p, _ in consulted(case)[0]]
+            if len(set(paths)) < len(paths):
+                tags.append('repeated-config-path')
         if res[0] == 'ok':
             tags.append(f'loaded:{len(res[1]["loaded"])}')
         return tags
